@@ -14,19 +14,19 @@ open Slicec
 /-- what `Diagnostic::new(Lint::…)` builds satisfies the hypothesis of `errors_untouched`: no lint kind of the extracted
     table has default level `Error` -/
 theorem lint_wellFormed (code : String) (h : code ∈ Gen.lintKinds) (f : Option Nat) (s : Option String) :
-    WellFormed (Diag.lint code f s) := by
+    DiagWellFormed (Diag.lint code f s) := by
   constructor
   · intro h'; simp [Diag.lint] at h'
   · intro _; simp [Diag.lint, default_level_not_error code h]
 
 /-- what `Diagnostic::new(Error::…)` builds satisfies the hypothesis of `errors_untouched` -/
-theorem err_wellFormed (code : String) (f : Option Nat) : WellFormed (Diag.err code f) := by
+theorem err_wellFormed (code : String) (f : Option Nat) : DiagWellFormed (Diag.err code f) := by
   constructor <;> simp [Diag.err]
 
 /-- **errors_untouched.** Whatever the configuration (command line list, file attributes, entity attributes):
     an error comes out of `into_updated` exactly as it went in, in particular with level `Error`; no lint ever becomes an
     error; hence the number of errors, and with it the exit status, is the same for any two configurations. -/
-theorem errors_untouched (env env' : AllowEnv) (ds : List Diag) (hwf : ∀ d ∈ ds, WellFormed d) :
+theorem errors_untouched (env env' : AllowEnv) (ds : List Diag) (hwf : ∀ d ∈ ds, DiagWellFormed d) :
     (∀ d ∈ ds, d.isError = true → updateOne env d = d ∧ (updateOne env d).level = .error) ∧
     (∀ d ∈ ds, d.isError = false → (updateOne env d).level ≠ .error) ∧
     (totals (intoUpdated env ds)).2 = (totals ds).2 ∧
